@@ -57,6 +57,17 @@ Lemma auto_set_retries a s : a_auto (set_retries a s) = a_auto a. Proof. reflexi
 Lemma auto_set_iqs a s n : a_auto (set_iqs a s n) = a_auto a. Proof. reflexivity. Qed.
 Lemma auto_set_skip a s : a_auto (set_skip a s) = a_auto a. Proof. reflexivity. Qed.
 Lemma auto_set_ids a s : a_auto (set_ids a s) = a_auto a. Proof. reflexivity. Qed.
+Lemma ids_commit a : a_ids (commit a) = a_ids a. Proof. reflexivity. Qed.
+Lemma sess_commit a : a_sess (commit a) = a_sess a. Proof. reflexivity. Qed.
+Lemma auto_commit a : a_auto (commit a) = a_auto a. Proof. reflexivity. Qed.
+Lemma ids_store_identity a c k : a_ids (store_identity a c k) = save_identity (a_ids a) c k. Proof. reflexivity. Qed.
+Lemma sess_store_identity a c k : a_sess (store_identity a c k) = a_sess a. Proof. reflexivity. Qed.
+Lemma auto_store_identity a c k : a_auto (store_identity a c k) = a_auto a. Proof. reflexivity. Qed.
+Lemma ids_store_session a c r : a_ids (store_session a c r) = a_ids a. Proof. reflexivity. Qed.
+Lemma sess_store_session a c r : a_sess (store_session a c r) = upd c r (a_sess a). Proof. reflexivity. Qed.
+Lemma auto_store_session a c r : a_auto (store_session a c r) = a_auto a. Proof. reflexivity. Qed.
+#[export] Hint Rewrite ids_commit sess_commit auto_commit ids_store_identity sess_store_identity auto_store_identity
+  ids_store_session sess_store_session auto_store_session : acct.
 #[export] Hint Rewrite ids_set_sess ids_set_sentq ids_set_pend ids_set_retries ids_set_iqs ids_set_skip ids_set_ids
   sess_set_sess sess_set_sentq sess_set_pend sess_set_retries sess_set_iqs sess_set_skip sess_set_ids
   auto_set_sess auto_set_sentq auto_set_pend auto_set_retries auto_set_iqs auto_set_skip auto_set_ids : acct.
@@ -67,6 +78,9 @@ Lemma record_of_set_pend a s c : record_of (set_pend a s) c = record_of a c. Pro
 Lemma record_of_set_retries a s c : record_of (set_retries a s) c = record_of a c. Proof. reflexivity. Qed.
 Lemma record_of_set_iqs a s n c : record_of (set_iqs a s n) c = record_of a c. Proof. reflexivity. Qed.
 Lemma record_of_set_skip a s c : record_of (set_skip a s) c = record_of a c. Proof. reflexivity. Qed.
+Lemma record_of_commit a c : record_of (commit a) c = record_of a c. Proof. reflexivity. Qed.
+Lemma record_of_store_identity a c0 k c : record_of (store_identity a c0 k) c = record_of a c. Proof. reflexivity. Qed.
+#[export] Hint Rewrite record_of_commit record_of_store_identity : acct.
 #[export] Hint Rewrite record_of_set_ids record_of_set_sentq record_of_set_pend record_of_set_retries
   record_of_set_iqs record_of_set_skip : acct.
 
@@ -80,26 +94,42 @@ Definition pins_kept (a a' : acct) : Prop :=
 Definition tagged (a : acct) : Prop :=
   forall c r s, lookup c (a_sess a) = Some r -> In s r -> lookup c (a_ids a) = Some (s_ident s).
 
+(* (0) durability: nothing the process works with is missing from the committed tables - a restart loses nothing *)
+Definition durable (a : acct) : Prop := a_dids a = a_ids a /\ a_dsess a = a_sess a.
+
 Definition G (a a' : acct) : Prop :=
-  a_auto a' = a_auto a /\
-  (a_auto a = false -> pins_kept a a' /\ (tagged a -> tagged a')).
+  (a_auto a' = a_auto a /\ (durable a -> durable a')) /\
+  (a_auto a = false -> durable a -> pins_kept a a' /\ (tagged a -> tagged a')).
 
 Lemma G_refl a : G a a.
-Proof. split; auto. intros _. split; [intros c k H; exact H | auto]. Qed.
+Proof. split; auto. intros _ _. split; [intros c k H; exact H | auto]. Qed.
 
 Lemma G_trans a b c : G a b -> G b c -> G a c.
 Proof.
-  intros [A1 B1] [A2 B2]. split; [congruence|]. intros Hf.
-  destruct (B1 Hf) as [P1 T1]. assert (Hb : a_auto b = false) by congruence.
-  destruct (B2 Hb) as [P2 T2]. split; [intros x k H; apply P2, P1, H | auto].
+  intros [[A1 D1] B1] [[A2 D2] B2]. split; [split; [congruence | auto]|]. intros Hf Hd.
+  destruct (B1 Hf Hd) as [P1 T1]. assert (Hb : a_auto b = false) by congruence.
+  destruct (B2 Hb (D1 Hd)) as [P2 T2]. split; [intros x k H; apply P2, P1, H | auto].
 Qed.
 
-(* a change that touches neither table *)
-Lemma G_same a a' : a_auto a' = a_auto a -> a_ids a' = a_ids a -> a_sess a' = a_sess a -> G a a'.
+Lemma durable_commit a : durable (commit a).
+Proof. split; reflexivity. Qed.
+
+(* G only looks at the flag, the two working tables and durability *)
+Lemma G_view a b b' :
+  G a b -> a_auto b' = a_auto b -> a_ids b' = a_ids b -> a_sess b' = a_sess b -> (durable a -> durable b') -> G a b'.
 Proof.
-  intros HA HI HS. split; auto. intros _. split.
-  - intros c k H. rewrite HI. exact H.
-  - intros T c r s H1 H2. rewrite HI. rewrite HS in H1. eapply T; eauto.
+  intros [[A D] B] HA HI HS HD. split; [split; [congruence | exact HD]|]. intros Hf Hd. destruct (B Hf Hd) as [P T]. split.
+  - intros c k H. rewrite HI. apply P, H.
+  - intros Ta c r s H1 H2. rewrite HI. rewrite HS in H1. eapply T; eauto.
+Qed.
+
+(* a change that touches no table *)
+Lemma G_same a a' :
+  a_auto a' = a_auto a -> a_ids a' = a_ids a -> a_sess a' = a_sess a ->
+  a_dids a' = a_dids a -> a_dsess a' = a_dsess a -> G a a'.
+Proof.
+  intros HA HI HS HDI HDS. apply (G_view a a a' (G_refl a)); auto.
+  intros [D1 D2]. split; congruence.
 Qed.
 
 Lemma trusted_save_kept ids c k :
@@ -117,9 +147,9 @@ Proof. unfold record_of. destruct (lookup c (a_sess a)) eqn:E; [eauto | intros [
 Lemma G_install a c k r :
   trusted (a_ids a) c k = true ->
   (forall s, In s r -> s_ident s = k \/ exists s0, In s0 (record_of a c) /\ s_ident s0 = s_ident s) ->
-  G a (set_ids (set_sess a (upd c r (a_sess a))) (save_identity (a_ids a) c k)).
+  G a (store_identity (store_session a c r) c k).
 Proof.
-  intros Ht Hr. split; [reflexivity|]. intros _. split.
+  intros Ht Hr. split; [split; [reflexivity | intros _; apply durable_commit]|]. intros _ _. split.
   - intros c0 k0 H. autorewrite with acct. apply trusted_save_kept; auto.
   - intros T c0 r0 s H1 H2. autorewrite with acct in *. unfold save_identity. rewrite lookup_upd.
     rewrite lookup_upd in H1. destruct (c =? c0) eqn:E.
@@ -133,9 +163,9 @@ Qed.
 (* Replacing c's record by states it already had (possibly with counters changed) keeps G. *)
 Lemma G_shuffle a c r :
   (forall s, In s r -> exists s0, In s0 (record_of a c) /\ s_ident s0 = s_ident s) ->
-  G a (set_sess a (upd c r (a_sess a))).
+  G a (store_session a c r).
 Proof.
-  intros Hr. split; [reflexivity|]. intros _. split.
+  intros Hr. split; [split; [reflexivity | intros _; apply durable_commit]|]. intros _ _. split.
   - intros c0 k0 H. exact H.
   - intros T c0 r0 s H1 H2. autorewrite with acct in *. rewrite lookup_upd in H1.
     destruct (c =? c0) eqn:E.
@@ -191,12 +221,13 @@ Proof.
       destruct Hs as [Hs | Hs]; [left; subst; reflexivity | right; exact Hs]. }
     destruct (decrypt_record r1 (e_sid e) (e_n e) (e_corrupt e) (e_payload e)) as [[r'|] res] eqn:D;
       cbn [fst].
-    + autorewrite with acct.
+    + apply (G_view a (store_identity (store_session a c r') c (e_ident e))); try reflexivity;
+        [|intros _; apply durable_commit].
       apply (G_install a c (e_ident e) r'); auto.
       intros s Hs. destruct (decrypt_record_states _ _ _ _ _ _ _ D s Hs) as [s0 [I0 E0]].
       destruct (Hr1 s0 I0) as [Hk | Hin]; [left; congruence | right; exists s0; auto].
     + (* identity saved, record not stored *)
-      split; [reflexivity|]. intros _. split.
+      split; [split; [reflexivity | intros _; apply durable_commit]|]. intros _ _. split.
       * intros c0 k0 H. autorewrite with acct. apply trusted_save_kept; auto.
       * intros T c0 r0 s H1 H2. autorewrite with acct in *. unfold save_identity. rewrite lookup_upd.
         destruct (c =? c0) eqn:E; [|eapply T; eauto].
@@ -214,32 +245,32 @@ Definition outs_ok (a' : acct) (os : list output) : Prop :=
   forall c m k sid n ident, In (OMsg c m k sid n ident) os -> lookup c (a_ids a') = Some ident.
 
 Definition S (a : acct) (r : acct * list output) : Prop :=
-  G a (fst r) /\ (a_auto a = false -> tagged a -> outs_ok (fst r) (snd r)).
+  G a (fst r) /\ (a_auto a = false -> durable a -> tagged a -> outs_ok (fst r) (snd r)).
 
-Lemma G_auto_true a a' : a_auto a = true -> a_auto a' = true -> G a a'.
-Proof. intros H1 H2. split; [congruence|]. intros H. congruence. Qed.
+Lemma G_auto_true a a' : a_auto a = true -> a_auto a' = true -> (durable a -> durable a') -> G a a'.
+Proof. intros H1 H2 HD. split; [split; [congruence | exact HD]|]. intros H. congruence. Qed.
 
 Lemma outs_ok_nil a : outs_ok a []. Proof. intros c m k sid n ident []. Qed.
 
 Lemma S_noout a a' os :
   G a a' -> (forall c m k sid n ident, ~ In (OMsg c m k sid n ident) os) -> S a (a', os).
-Proof. intros HG Hn. split; [exact HG|]. intros _ _ c m k sid n ident H. exfalso. eapply Hn; eauto. Qed.
+Proof. intros HG Hn. split; [exact HG|]. intros _ _ _ c m k sid n ident H. exfalso. eapply Hn; eauto. Qed.
 
 Lemma S_seq a a1 o1 a2 o2 : S a (a1, o1) -> S a1 (a2, o2) -> S a (a2, o1 ++ o2).
 Proof.
   intros [G1 O1] [G2 O2]. cbn [fst snd] in *. split; [eapply G_trans; eauto|].
-  intros Hf T. cbn [fst snd]. destruct G1 as [A1 B1]. destruct (B1 Hf) as [P1 T1].
+  intros Hf Hd T. cbn [fst snd]. destruct G1 as [[A1 D1] B1]. destruct (B1 Hf Hd) as [P1 T1].
   assert (Hf1 : a_auto a1 = false) by congruence.
-  destruct G2 as [A2 B2]. destruct (B2 Hf1) as [P2 T2].
+  destruct G2 as [[A2 D2] B2]. destruct (B2 Hf1 (D1 Hd)) as [P2 T2].
   intros c m k sid n ident Hin. apply in_app_or in Hin. destruct Hin as [Hin | Hin].
   - apply P2. eapply O1; eauto.
-  - eapply O2; eauto.
+  - eapply (O2 Hf1 (D1 Hd) (T1 T)); eauto.
 Qed.
 
 Lemma S_G a a1 r : G a a1 -> S a1 r -> S a r.
 Proof.
-  intros G1 [G2 O2]. split; [eapply G_trans; eauto|]. intros Hf T.
-  destruct G1 as [A1 B1]. destruct (B1 Hf) as [P1 T1]. apply O2; [congruence | auto].
+  intros G1 [G2 O2]. split; [eapply G_trans; eauto|]. intros Hf Hd T.
+  destruct G1 as [[A1 D1] B1]. destruct (B1 Hf Hd) as [P1 T1]. apply O2; [congruence | auto | auto].
 Qed.
 
 Lemma S_then_G a a1 os a2 : S a (a1, os) -> G a1 a2 -> S a (a2, os).
@@ -259,7 +290,7 @@ Proof.
       apply G_shuffle. rewrite R. intros s1 [H | H].
       * subst s1. exists s. split; [left; auto | reflexivity].
       * exists s1. split; [right; auto | reflexivity].
-    + intros Hf T c0 m0 k sid n ident [H | []]. injection H as -> _ _ _ _ <-.
+    + intros Hf Hd T c0 m0 k sid n ident [H | []]. injection H as -> _ _ _ _ <-.
       autorewrite with acct.
       assert (Hin : In s (record_of a c0)) by (rewrite R; left; auto).
       apply record_of_in in Hin. destruct Hin as [r1 [L1 I1]]. eapply T; eauto.
@@ -291,7 +322,7 @@ Proof.
 Qed.
 
 Lemma auto_decrypt a c e : a_auto (fst (decrypt a c e)) = a_auto a.
-Proof. destruct (G_decrypt a c e) as [H _]. exact H. Qed.
+Proof. destruct (G_decrypt a c e) as [[H _] _]. exact H. Qed.
 
 Lemma S_handle_enc a c m e : S a (handle_enc a c m e).
 Proof.
@@ -299,7 +330,7 @@ Proof.
   destruct (decrypt a c e) as [a1 res] eqn:D. cbn [fst] in HG, HA.
   destruct res; try apply S_handle_enc1.
   destruct (a_auto a) eqn:Hauto.
-  - eapply S_G; [|apply S_handle_enc1]. apply G_auto_true; [exact Hauto | autorewrite with acct; congruence].
+  - eapply S_G; [|apply S_handle_enc1]. apply G_auto_true; [exact Hauto | autorewrite with acct; congruence | intros _; apply durable_commit].
   - apply S_noout; [exact HG | no_omsg].
 Qed.
 
@@ -317,18 +348,20 @@ Proof.
   unfold create_session. destruct (process_bundle a c k sid) as [a'|] eqn:P; cbn [fst].
   - eapply G_process_bundle; eauto.
   - destruct (a_auto a) eqn:Hauto; cbn [fst]; [|apply G_refl].
-    apply G_auto_true; [exact Hauto | unfold build_session; autorewrite with acct; exact Hauto].
+    apply G_auto_true; [exact Hauto | unfold build_session; autorewrite with acct; exact Hauto
+                        | intros _; apply durable_commit].
 Qed.
 
 Lemma S_keys_result a k res : S a (keys_result a k res).
 Proof.
   unfold keys_result.
-  set (c := match k with KSend c _ | KRetry c _ _ | KIncoming c => c end).
+  set (c := cont_contact k).
   destruct (lookup c res) as [[ident sid]|].
-  2:{ apply S_noout; [apply G_same; reflexivity | no_omsg]. }
+  2:{ destruct k; apply S_noout; (apply G_same; reflexivity) || no_omsg. }
   pose proof (G_create_session a c ident sid) as HG.
   destruct (create_session a c ident sid) as [a1 ok]. cbn [fst] in HG.
-  destruct k as [c0 m | c0 m t | c0].
+  destruct k as [c0 m | c0 m t | c0 | c0].
+  4:{ apply S_noout; [exact HG | no_omsg]. }
   - destruct ok; [eapply S_G; [exact HG | apply S_send_to_contact] | apply S_noout; [exact HG | no_omsg]].
   - destruct ok; [eapply S_G; [exact HG | apply S_plaintext_send] | apply S_noout; [exact HG | no_omsg]].
   - destruct ok; [|apply S_noout; [exact HG | no_omsg]].
@@ -346,6 +379,13 @@ Proof.
   - apply S_noout; [apply G_refl | no_omsg].
 Qed.
 
+Lemma G_restart a : G a (restart a).
+Proof.
+  split; [split; [reflexivity | intros _; split; reflexivity]|]. intros _ [DI DS]. split.
+  - intros c k H. cbn [restart a_ids]. rewrite DI. exact H.
+  - intros T c r s H1 H2. cbn [restart a_ids a_sess] in *. rewrite DI. rewrite DS in H1. eapply T; eauto.
+Qed.
+
 Lemma S_step a i : i <> IWipe -> S a (step a i).
 Proof.
   intros Hw. destruct i; cbn [step].
@@ -355,8 +395,9 @@ Proof.
     + apply S_noout; [apply G_refl | no_omsg].
   - apply S_handle_enc.
   - apply S_on_receipt.
-  - apply S_noout; [apply G_same; reflexivity | no_omsg].
+  - apply S_noout; [apply G_restart | no_omsg].
   - congruence.
+  - unfold on_notify, get_keys. apply S_noout; [apply G_same; reflexivity | no_omsg].
 Qed.
 
 Definition no_wipe (ins : list input) : Prop := Forall (fun i => i <> IWipe) ins.
@@ -372,13 +413,39 @@ Qed.
 Lemma tagged_init auto : tagged (init auto).
 Proof. intros c r s H. cbn in H. discriminate. Qed.
 
+Lemma durable_init auto : durable (init auto).
+Proof. split; reflexivity. Qed.
+
+(* durability is kept by EVERY input, the account's own reinstall included *)
+Lemma durable_step a i : durable a -> durable (fst (step a i)).
+Proof.
+  intros Hd. assert (Hi : i = IWipe \/ i <> IWipe) by (destruct i; (left; reflexivity) || (right; discriminate)).
+  destruct Hi as [-> | Hi]; [split; reflexivity|].
+  destruct (S_step a i Hi) as [[[_ D] _] _]. auto.
+Qed.
+
+Lemma durable_run ins : forall a, durable a -> durable (fst (run a ins)).
+Proof.
+  induction ins as [|i r IH]; intros a Hd; cbn [run]; [exact Hd|].
+  pose proof (durable_step a i Hd) as H1. destruct (step a i) as [a1 o]. cbn [fst] in H1.
+  specialize (IH a1 H1). destruct (run a1 r) as [a2 os]. exact IH.
+Qed.
+
+Lemma run_app : forall l1 l2 b, fst (run b (l1 ++ l2)) = fst (run (fst (run b l1)) l2).
+Proof.
+  induction l1 as [|i l1 IH]; intros l2 b; cbn [run app]; [reflexivity|].
+  destruct (step b i) as [b1 o]. specialize (IH l2 b1).
+  destruct (run b1 (l1 ++ l2)) as [x xs]. destruct (run b1 l1) as [y ys]. cbn [fst] in *.
+  destruct (run y l2); cbn [fst] in *. exact IH.
+Qed.
+
 (* ---------- the theorems ---------- *)
 (* 1. once pinned, the stored key of c never changes (auto-trust off) *)
 Theorem pin_immutable_thm : forall a ins c k,
-  a_auto a = false -> no_wipe ins ->
+  a_auto a = false -> durable a -> no_wipe ins ->
   lookup c (a_ids a) = Some k -> lookup c (a_ids (fst (run a ins))) = Some k.
 Proof.
-  intros a ins c k Hf Hw H. destruct (run_G ins a Hw) as [_ B]. destruct (B Hf) as [P _]. apply P, H.
+  intros a ins c k Hf Hd Hw H. destruct (run_G ins a Hw) as [_ B]. destruct (B Hf Hd) as [P _]. apply P, H.
 Qed.
 
 (* 2. every ciphertext produced for c is under a session state built for the pinned identity *)
@@ -389,9 +456,10 @@ Theorem no_encrypt_to_stranger_thm : forall auto pre i c m k sid n ident,
   lookup c (a_ids (fst (step a1 i))) = Some ident.
 Proof.
   intros auto pre i c m k sid n ident Hf Hw a1 Hin.
-  destruct (run_G pre (init auto) Hw) as [A B]. fold a1 in A, B.
+  destruct (run_G pre (init auto) Hw) as [[A D] B]. fold a1 in A, B, D.
   assert (Hf0 : a_auto (init auto) = false) by (subst; reflexivity).
-  destruct (B Hf0) as [_ T]. specialize (T (tagged_init auto)).
+  destruct (B Hf0 (durable_init auto)) as [_ T]. specialize (T (tagged_init auto)).
+  specialize (D (durable_init auto)).
   assert (Hf1 : a_auto a1 = false) by congruence.
   assert (Hi : i = IWipe \/ i <> IWipe) by (destruct i; (left; reflexivity) || (right; discriminate)).
   destruct Hi as [-> | Hi]; [cbn in Hin; contradiction|].
@@ -408,7 +476,7 @@ Theorem refused_bundle_thm : forall a iq res c m k k' sid,
   a_sentq (fst (step a (IKeys iq res))) = a_sentq a.
 Proof.
   intros a iq res c m k k' sid Hf Hq Hp Hr Hne. cbn [step]. rewrite Hq.
-  unfold keys_result. rewrite Hr. unfold create_session, process_bundle. autorewrite with acct.
+  unfold keys_result. cbn [cont_contact]. rewrite Hr. unfold create_session, process_bundle. autorewrite with acct.
   unfold trusted. rewrite Hp. destruct (k =? k') eqn:E; [apply N.eqb_eq in E; congruence|].
   rewrite Hf. cbn [fst snd]. auto.
 Qed.
@@ -421,7 +489,7 @@ Theorem refused_retry_bundle_thm : forall a iq res c m t k k' sid,
   a_sess (fst (step a (IKeys iq res))) = a_sess a.
 Proof.
   intros a iq res c m t k k' sid Hf Hq Hp Hr Hne. cbn [step]. rewrite Hq.
-  unfold keys_result. rewrite Hr. unfold create_session, process_bundle. autorewrite with acct.
+  unfold keys_result. cbn [cont_contact]. rewrite Hr. unfold create_session, process_bundle. autorewrite with acct.
   unfold trusted. rewrite Hp. destruct (k =? k') eqn:E; [apply N.eqb_eq in E; congruence|].
   rewrite Hf. cbn [fst snd]. auto.
 Qed.
@@ -439,13 +507,16 @@ Qed.
 Lemma record_of_upd_same b c r s : record_of (set_sess b (upd c r s)) c = r.
 Proof. unfold record_of. autorewrite with acct. rewrite lookup_upd_same. reflexivity. Qed.
 
+Lemma record_of_store_session_same b c r : record_of (store_session b c r) c = r.
+Proof. unfold record_of. autorewrite with acct. rewrite lookup_upd_same. reflexivity. Qed.
+
 (* 4a. auto-trust on: the new key of a bundle replaces the old one, the session is built and the message goes out *)
 Theorem autotrust_bundle_replaces_thm : forall a iq res c m k' sid,
   a_auto a = true -> lookup iq (a_iqs a) = Some (KSend c m) -> lookup c res = Some (k', sid) ->
   lookup c (a_ids (fst (step a (IKeys iq res)))) = Some k' /\
   snd (step a (IKeys iq res)) = [OMsg c m EPk sid 0 k'].
 Proof.
-  intros a iq res c m k' sid Ht Hq Hr. cbn [step]. rewrite Hq. unfold keys_result. rewrite Hr.
+  intros a iq res c m k' sid Ht Hq Hr. cbn [step]. rewrite Hq. unfold keys_result. cbn [cont_contact]. rewrite Hr.
   set (a0 := set_iqs a (remove_key iq (a_iqs a)) (a_iqctr a)).
   assert (Hcs : exists b, fst (create_session a0 c k' sid) = build_session b c k' sid /\
                           snd (create_session a0 c k' sid) = true).
@@ -454,7 +525,7 @@ Proof.
     - replace (a_auto a0) with true by (symmetry; exact Ht). eexists. split; reflexivity. }
   destruct Hcs as [b [Hb Hok]]. destruct (create_session a0 c k' sid) as [a1 ok]. cbn [fst snd] in Hb, Hok.
   subst a1 ok. unfold send_to_contact, encrypt, build_session. autorewrite with acct.
-  rewrite !record_of_upd_same. cbn [new_state s_unack s_sid s_sent s_ident fst snd]. autorewrite with acct.
+  rewrite !record_of_store_session_same. cbn [new_state s_unack s_sid s_sent s_ident fst snd]. autorewrite with acct.
   split; [unfold save_identity; apply lookup_upd_same | reflexivity].
 Qed.
 
@@ -494,41 +565,108 @@ Theorem autotrust_resumes_thm : forall a iq res c m k' sid,
   lookup c (a_ids a) = Some k' ->
   snd (step a (IKeys iq res)) = [OMsg c m EPk sid 0 k'].
 Proof.
-  intros a iq res c m k' sid Hq Hr Hp. cbn [step]. rewrite Hq. unfold keys_result. rewrite Hr.
+  intros a iq res c m k' sid Hq Hr Hp. cbn [step]. rewrite Hq. unfold keys_result. cbn [cont_contact]. rewrite Hr.
   unfold create_session, process_bundle, build_session. autorewrite with acct. unfold trusted. rewrite Hp, N.eqb_refl.
   unfold plaintext_send, session_exists, send_to_contact, encrypt.
-  autorewrite with acct. rewrite !record_of_upd_same.
+  autorewrite with acct. rewrite !record_of_store_session_same.
   cbn [new_state s_unack s_sid s_sent s_ident snd]. reflexivity.
 Qed.
 
-(* 5. the pin is in the durable store: a restart changes neither table, and the pin stays enforced *)
-Theorem survives_restart_thm : forall a,
+(* 3c/6. the identity-change notification: the ack and a key request, nothing else; on the key answer the bundle is
+   processed and NOTHING is sent.  Unknown contact: session built, identity remembered - and committed;
+   different identity with auto-trust off: nothing at all changes (the error is dropped by the no-op callback) *)
+Theorem notify_fetches_keys_thm : forall a c m,
+  snd (step a (INotify c m)) = [ONotifAck c m; OGetKeys (a_iqctr a) c] /\
+  lookup (a_iqctr a) (a_iqs (fst (step a (INotify c m)))) = Some (KNotify c) /\
+  a_ids (fst (step a (INotify c m))) = a_ids a /\ a_sess (fst (step a (INotify c m))) = a_sess a.
+Proof.
+  intros a c m. cbn [step]. unfold on_notify, get_keys. cbn [fst snd]. autorewrite with acct.
+  repeat split. cbn [set_iqs a_iqs lookup]. rewrite N.eqb_refl. reflexivity.
+Qed.
+
+Theorem notify_bundle_pins_thm : forall a iq res c k sid,
+  lookup iq (a_iqs a) = Some (KNotify c) -> lookup c res = Some (k, sid) -> trusted (a_ids a) c k = true ->
+  let a' := fst (step a (IKeys iq res)) in
+  snd (step a (IKeys iq res)) = [] /\
+  lookup c (a_ids a') = Some k /\ lookup c (a_dids a') = Some k /\
+  record_of a' c = new_state sid k true :: record_of a c /\ durable a'.
+Proof.
+  intros a iq res c k sid Hq Hr Ht. cbn [step]. rewrite Hq. unfold keys_result. cbn [cont_contact]. rewrite Hr.
+  unfold create_session, process_bundle. autorewrite with acct. rewrite Ht. cbn [fst snd].
+  split; [reflexivity|]. unfold build_session.
+  split; [autorewrite with acct; unfold save_identity; apply lookup_upd_same|].
+  split; [cbn [store_identity commit a_dids]; autorewrite with acct; unfold save_identity; apply lookup_upd_same|].
+  split; [|apply durable_commit].
+  autorewrite with acct. rewrite record_of_store_session_same. reflexivity.
+Qed.
+
+Theorem refused_notify_bundle_thm : forall a iq res c k k' sid,
+  a_auto a = false -> lookup iq (a_iqs a) = Some (KNotify c) ->
+  lookup c (a_ids a) = Some k -> lookup c res = Some (k', sid) -> k' <> k ->
+  step a (IKeys iq res) = (set_iqs a (remove_key iq (a_iqs a)) (a_iqctr a), []).
+Proof.
+  intros a iq res c k k' sid Hf Hq Hp Hr Hne. cbn [step]. rewrite Hq.
+  unfold keys_result. cbn [cont_contact]. rewrite Hr. unfold create_session, process_bundle. autorewrite with acct.
+  unfold trusted. rewrite Hp. destruct (k =? k') eqn:E; [apply N.eqb_eq in E; congruence|].
+  rewrite Hf. reflexivity.
+Qed.
+
+(* 5. the pin is in the durable store.
+   5a. every state the account can reach - by ANY history, its own reinstalls included, whichever path saved an
+       identity (bundle for a send, bundle for a retry, bundle fetched after an identity-change notification, bundle
+       fetched for a parked message, first message, auto-trust) - has everything it works with committed *)
+Theorem reachable_durable_thm : forall auto ins, durable (fst (run (init auto) ins)).
+Proof. intros auto ins. apply durable_run, durable_init. Qed.
+
+(* 5b. hence: every identity (and session) the account has remembered is still remembered after a restart *)
+Theorem survives_restart_thm : forall auto ins,
+  let a := fst (run (init auto) ins) in
   a_ids (fst (step a IRestart)) = a_ids a /\ a_sess (fst (step a IRestart)) = a_sess a /\
   a_auto (fst (step a IRestart)) = a_auto a.
-Proof. intros a. cbn. auto. Qed.
+Proof.
+  intros auto ins a. destruct (reachable_durable_thm auto ins) as [DI DS]. fold a in DI, DS.
+  cbn [step fst restart a_ids a_sess a_auto]. auto.
+Qed.
+
+Theorem remembered_survives_restart_thm : forall auto ins c k,
+  let a := fst (run (init auto) ins) in
+  lookup c (a_ids a) = Some k -> lookup c (a_ids (fst (run (init auto) (ins ++ [IRestart])))) = Some k.
+Proof.
+  intros auto ins c k a H. rewrite run_app. fold a. cbn [run fst].
+  destruct (survives_restart_thm auto ins) as [E _]. fold a in E. cbn [step fst] in E.
+  cbn [step fst]. rewrite E. exact H.
+Qed.
+
+(* 5c. the same stated on one state: a restart of a durable state changes neither table nor the flag *)
+Theorem restart_of_durable_thm : forall a, durable a ->
+  a_ids (fst (step a IRestart)) = a_ids a /\ a_sess (fst (step a IRestart)) = a_sess a /\
+  a_auto (fst (step a IRestart)) = a_auto a /\ durable (fst (step a IRestart)).
+Proof. intros a [DI DS]. cbn [step fst restart a_ids a_sess a_auto]. repeat split; auto. Qed.
 
 Theorem pin_enforced_after_restart_thm : forall a ins1 ins2 c k,
-  a_auto a = false -> no_wipe ins1 -> no_wipe ins2 ->
+  a_auto a = false -> durable a -> no_wipe ins1 -> no_wipe ins2 ->
   lookup c (a_ids (fst (run a ins1))) = Some k ->
   let a' := fst (run a (ins1 ++ IRestart :: ins2)) in
   lookup c (a_ids a') = Some k /\ a_auto a' = false /\
-  (forall m e, e_kind e = EPk -> e_ident e <> k -> step a' (IMsg c m e) = (a', [])).
+  (forall m e, e_kind e = EPk -> e_ident e <> k -> step a' (IMsg c m e) = (a', [])) /\
+  (forall iq res m k' sid, lookup iq (a_iqs a') = Some (KSend c m) -> lookup c res = Some (k', sid) -> k' <> k ->
+     snd (step a' (IKeys iq res)) = [OErr c]) /\
+  (forall iq res k' sid, lookup iq (a_iqs a') = Some (KNotify c) -> lookup c res = Some (k', sid) -> k' <> k ->
+     step a' (IKeys iq res) = (set_iqs a' (remove_key iq (a_iqs a')) (a_iqctr a'), [])).
 Proof.
-  intros a ins1 ins2 c k Hf H1 H2 Hp a'.
-  assert (Hrun : forall l1 l2 b, fst (run b (l1 ++ l2)) = fst (run (fst (run b l1)) l2)).
-  { induction l1 as [|i l1 IH]; intros l2 b; cbn [run app]; [reflexivity|].
-    destruct (step b i) as [b1 o]. specialize (IH l2 b1).
-    destruct (run b1 (l1 ++ l2)) as [x xs]. destruct (run b1 l1) as [y ys]. cbn [fst] in *.
-    destruct (run y l2); cbn [fst] in *. exact IH. }
+  intros a ins1 ins2 c k Hf Hd H1 H2 Hp a'.
   assert (Hw : no_wipe (IRestart :: ins2)) by (constructor; [discriminate | exact H2]).
   assert (Ha1 : a_auto (fst (run a ins1)) = false).
-  { destruct (run_G ins1 a H1) as [A _]. congruence. }
+  { destruct (run_G ins1 a H1) as [[A _] _]. congruence. }
+  assert (Hd1 : durable (fst (run a ins1))) by (apply durable_run; exact Hd).
   assert (Hk : lookup c (a_ids a') = Some k).
-  { unfold a'. rewrite Hrun. apply pin_immutable_thm; auto. }
+  { unfold a'. rewrite run_app. apply pin_immutable_thm; auto. }
   assert (Ha' : a_auto a' = false).
-  { unfold a'. rewrite Hrun. destruct (run_G (IRestart :: ins2) (fst (run a ins1)) Hw) as [A _]. congruence. }
-  split; [exact Hk|]. split; [exact Ha'|].
-  intros m e He Hne. eapply refused_first_message_thm; eauto.
+  { unfold a'. rewrite run_app. destruct (run_G (IRestart :: ins2) (fst (run a ins1)) Hw) as [[A _] _]. congruence. }
+  split; [exact Hk|]. split; [exact Ha'|]. split; [|split].
+  - intros m e He Hne. eapply refused_first_message_thm; eauto.
+  - intros iq res m k' sid Hq Hr Hne. eapply refused_bundle_thm; eauto.
+  - intros iq res k' sid Hq Hr Hne. eapply refused_notify_bundle_thm; eauto.
 Qed.
 
 (* ---------- non-vacuity: the history observed on the real code, computed ---------- *)
@@ -562,7 +700,7 @@ Example create_session_unrepaired_refuted :
     session_exists (fst (create_session_unrepaired a c k sid)) c = false /\
     session_exists (fst (create_session a c k sid)) c = true.
 Proof.
-  exists (mkA true [(7, 1)] [] [] [] [] [] [] 0), 7, 2, 51. vm_compute. repeat split; reflexivity.
+  exists (mkA true [(7, 1)] [] [(7, 1)] [] [] [] [] [] [] 0), 7, 2, 51. vm_compute. repeat split; reflexivity.
 Qed.
 
 (* with auto-trust ON the invariant of theorem 2 does not hold (archived states keep the old identity); it is
@@ -570,9 +708,66 @@ Qed.
 Example autotrust_keeps_old_states_witness :
   exists a, a_auto a = true /\ tagged a /\ ~ tagged (fst (create_session a 7 2 51)).
 Proof.
-  exists (mkA true [(7, 1)] [(7, [mkS 50 1 false 0 []])] [] [] [] [] [] 0). split; [reflexivity|]. split.
+  exists (mkA true [(7, 1)] [(7, [mkS 50 1 false 0 []])] [(7, 1)] [(7, [mkS 50 1 false 0 []])] [] [] [] [] [] 0). split; [reflexivity|]. split.
   - intros c r s H Hin. cbn [a_sess lookup] in H. destruct (7 =? c) eqn:E; [|discriminate]. apply N.eqb_eq in E. subst c.
     apply Some_inj in H. subst r. destruct Hin as [<- | []]. reflexivity.
   - intros T. specialize (T 7 _ (mkS 50 1 false 0 []) eq_refl (or_intror (or_introl eq_refl))).
     vm_compute in T. discriminate.
+Qed.
+
+(* ---------- non-vacuity for the notification path and the no-session receive path ---------- *)
+(* the server announces a new identity of contact 7; we fetch its bundle (key 1, base key 50): session built, key 1
+   remembered, nothing sent.  The process restarts at once.  7 reinstalls (key 2).  Our message 2 goes out under the
+   session for key 1, 7 asks for a retry, the bundle now shows key 2: per-jid error, nothing re-sent; a first message
+   of 7 presenting key 2 is ignored; a second notification + bundle with key 2 changes nothing.  Key 1 stays. *)
+Definition history_notify : list input :=
+  [ INotify 7 1; IKeys 0 [(7, (1, 50))]; IRestart;
+    IAppSend 7 2; IReceipt 7 2 true; IKeys 1 [(7, (2, 51))];
+    IMsg 7 3 (mkE EPk 60 0 2 true false 3);
+    INotify 7 4; IKeys 2 [(7, (2, 52))] ].
+
+Example notify_history_no_autotrust :
+  snd (run (init false) history_notify) =
+  [ [ONotifAck 7 1; OGetKeys 0 7]; []; [];
+    [OMsg 7 2 EPk 50 0 1]; [OGetKeys 1 7]; [OErr 7];
+    [];
+    [ONotifAck 7 4; OGetKeys 2 7]; [] ]
+  /\ lookup 7 (a_ids (fst (run (init false) history_notify))) = Some 1
+  /\ map s_ident (record_of (fst (run (init false) history_notify)) 7) = [1].
+Proof. vm_compute. repeat split; reflexivity. Qed.
+
+(* the no-session receive path: a message of contact 7 under a session we do not have is parked and 7's bundle
+   fetched (key 1); the parked message then fails to decrypt (retry receipt) - nothing else touches the store.
+   Restart.  A first message presenting key 2 is ignored, key 1 stays. *)
+Definition history_nosession : list input :=
+  [ IMsg 7 1 (mkE EMsg 40 0 0 true false 1); IKeys 0 [(7, (1, 50))]; IRestart;
+    IMsg 7 2 (mkE EPk 60 0 2 true false 2) ].
+
+Example nosession_history_no_autotrust :
+  snd (run (init false) history_nosession) = [ [OGetKeys 0 7]; [ORetry 7 1 1]; []; [] ]
+  /\ lookup 7 (a_ids (fst (run (init false) history_nosession))) = Some 1.
+Proof. vm_compute. split; reflexivity. Qed.
+
+(* the variant in which saveIdentity has no commit of its own (seeded defect C17-2): processPreKeyBundle stores the
+   session FIRST (committed) and saves the identity LAST (left in the open transaction).  Inside the process the
+   pin is there; the state is not durable; after a restart the session survives, the pin does not, and the real
+   step function then takes ANOTHER identity for the contact from a bundle (auto-trust off) and remembers that. *)
+Example saveIdentity_without_commit_refuted :
+  exists a c k sid,
+    a_auto a = false /\ durable a /\ trusted (a_ids a) c k = true /\
+    let a1 := build_session_nocommit a c k sid in
+    lookup c (a_ids a1) = Some k /\ ~ durable a1 /\
+    lookup c (a_ids (restart a1)) = None /\ session_exists (restart a1) c = true /\
+    exists k' sid', k' <> k /\
+      let a2 := fst (step (restart a1) (INotify c 9)) in
+      lookup c (a_ids (fst (step a2 (IKeys (a_iqctr (restart a1)) [(c, (k', sid'))])))) = Some k' /\
+      (* ... whereas with the code as it is the same two steps leave k in place *)
+      let b1 := restart (build_session a c k sid) in
+      let b2 := fst (step b1 (INotify c 9)) in
+      lookup c (a_ids (fst (step b2 (IKeys (a_iqctr b1) [(c, (k', sid'))])))) = Some k.
+Proof.
+  exists (init false), 7, 1, 50. split; [reflexivity|]. split; [apply durable_init|]. split; [reflexivity|].
+  cbv zeta. split; [reflexivity|]. split.
+  - intros [D _]. vm_compute in D. discriminate.
+  - split; [reflexivity|]. split; [reflexivity|]. exists 2, 51. split; [discriminate|]. split; reflexivity.
 Qed.
